@@ -724,13 +724,18 @@ KIND = {"TypeAliasDecl": "type", "TypedefDecl": "type", "CXXConstructorDecl": "c
         "FieldDecl": "field", "VarDecl": "static", "CXXConversionDecl": "conversion", "FriendDecl": "friend", "EnumDecl": "enum"}
 
 
-def declared(rec, prefix=""):
-    """every member the class definition declares (implicit ones excepted), as `kind name : type`"""
+def declared(rec, prefix="", detail=False):
+    """every member the class definition declares (implicit ones excepted), as `kind name : type`; with detail also the
+    access (when not public) and virtual-ness"""
     out = []
+    access = "public" if rec.get("tagUsed") == "struct" else "private"
     for c in inner(rec):
         k = c.get("kind", "")
+        if k == "AccessSpecDecl":
+            access = c.get("access", access)
         if c.get("isImplicit") or k == "AccessSpecDecl" or k.endswith("Comment"):
             continue
+        n0 = len(out)
         ty = (c.get("type") or {}).get("qualType", "")
         if k in ("FunctionTemplateDecl", "ClassTemplateDecl"):
             pat = [x for x in inner(c) if x.get("kind") in ("CXXMethodDecl", "CXXConstructorDecl", "CXXRecordDecl", "CXXConversionDecl")]
@@ -738,26 +743,87 @@ def declared(rec, prefix=""):
             out.append("%stemplate %s : %s" % (prefix, c.get("name"), pty))
         elif k == "CXXRecordDecl":
             out.append("%sstruct %s" % (prefix, c.get("name")))
-            out += declared(c, prefix + str(c.get("name")) + "::")
+            sub = declared(c, prefix + str(c.get("name")) + "::", detail)
         else:
             out.append("%s%s %s : %s%s" % (prefix, KIND.get(k, k), c.get("name"), ty, " = default" if c.get("explicitlyDefaulted") else ""))
+        if detail and len(out) > n0:
+            tags = ([access] if access != "public" else []) + (["virtual"] if c.get("virtual") else [])
+            if tags:
+                out[n0] += " [" + ", ".join(tags) + "]"
+        if k == "CXXRecordDecl":
+            out += sub
     return out
 
 
-def declared_fm(docs):
+def declared_fm(docs, detail=False):
     for d in docs:
         if d.get("kind") == "ClassTemplateDecl" and d.get("name") == "FlatMap":
             for c in inner(d):
                 if c.get("kind") == "CXXRecordDecl":
-                    return declared(c)
+                    return declared(c, "", detail)
     return ["?"]
 
 
-def declared_po(docs):
+def declared_po(docs, detail=False):
     for d in docs:
         if d.get("kind") == "CXXRecordDecl" and d.get("name") == "ParameterizedObject" and d.get("completeDefinition"):
-            return declared(d)
+            return declared(d, "", detail)
     return ["?"]
+
+
+SPECIALS = (("copyCtor", "copy constructor"), ("copyAssign", "copy assignment"), ("moveCtor", "move constructor"),
+            ("moveAssign", "move assignment"))
+
+
+def specials(rec, prefix=""):
+    """the special members the class has WITHOUT declaring them (clang's definitionData): an implicit copy exists when
+    `simple`; there is no implicit move when the entry lacks `exists`/`simple` (a user-declared destructor suppresses it,
+    so std::move() copies)"""
+    dd = rec.get("definitionData") or {}
+    declared_kinds = set()
+    for c in inner(rec):
+        if c.get("kind") == "CXXConstructorDecl" and not c.get("isImplicit"):
+            ty = (c.get("type") or {}).get("qualType", "")
+            if "&&" in ty:
+                declared_kinds.add("moveCtor")
+            elif "&" in ty and str(rec.get("name")) in ty:
+                declared_kinds.add("copyCtor")
+        if c.get("kind") == "CXXMethodDecl" and c.get("name") == "operator=" and not c.get("isImplicit"):
+            declared_kinds.add("moveAssign" if "&&" in (c.get("type") or {}).get("qualType", "") else "copyAssign")
+    out = []
+    for key, label in SPECIALS:
+        if key in declared_kinds:
+            continue
+        e = dd.get(key) or {}
+        have = bool(e.get("simple") or e.get("exists"))
+        out.append("%simplicit %s : %s" % (prefix, label, "generated" if have else "none (a move is a copy)"))
+    return out
+
+
+def ns_level(docs, ns, files):
+    """namespace-level declarations of the anchored files (the NamespaceDecl blocks located in them): everything that is
+    not the out-of-line definition of a class member"""
+    out = []
+    for d in docs:
+        if d.get("kind") != "NamespaceDecl" or d.get("name") != ns:
+            continue
+        f = ((d.get("loc") or {}).get("file") or ((d.get("loc") or {}).get("expansionLoc") or {}).get("file") or "")
+        if not any(f.endswith(x) for x in files):
+            continue
+        for c in inner(d):
+            k = c.get("kind", "")
+            if c.get("isImplicit") or k.endswith("Comment") or "parentDeclContextId" in c:
+                continue
+            ty = (c.get("type") or {}).get("qualType", "")
+            if k in ("FunctionTemplateDecl", "ClassTemplateDecl"):
+                pat = [x for x in inner(c) if x.get("kind") in ("FunctionDecl", "CXXRecordDecl", "CXXMethodDecl")]
+                if pat and "parentDeclContextId" in pat[0]:
+                    continue
+                ty = (pat[0].get("type") or {}).get("qualType", "") if pat else ""
+                k = "template " + ("class" if c.get("kind") == "ClassTemplateDecl" else "function")
+            out.append("namespace %s: %s %s%s" % (ns, KIND.get(k, k.replace("CXXRecordDecl", "struct").replace("FunctionDecl", "function")),
+                                                 c.get("name"), (" : " + ty) if ty else ""))
+    return out
 
 
 PROBE = r'''#include "rkcommon/containers/FlatMap.h"
@@ -848,6 +914,27 @@ def main(argv):
     if not ff["ff_const_index_uninstantiable"]:
         notes.append("FlatMap::operator[] const can now be instantiated: it is on the exclusion list only because it could not")
     decl_fm, decl_po = declared_fm(docs_f), declared_po(docs_p)
+    # the full inventory: declared members + special members the classes have without declaring them + namespace level
+    inv = {"FlatMap": declared_fm(docs_f, True), "ParameterizedObject": declared_po(docs_p, True)}
+    try:
+        docs_nc = sxast.dump(a.repo, a.work, INST, "containers", "c10_inst", extra=extra)
+        docs_nu = sxast.dump(a.repo, a.work, INST, "utility", "c10_inst", extra=extra)
+        for d in docs_f:
+            if d.get("kind") == "ClassTemplateDecl" and d.get("name") == "FlatMap":
+                spec = [c for c in inner(d) if c.get("kind") == "ClassTemplateSpecializationDecl"]
+                if spec:
+                    inv["FlatMap"] += specials(spec[0])
+        for d in docs_p:
+            if d.get("kind") == "CXXRecordDecl" and d.get("name") == "ParameterizedObject" and d.get("completeDefinition"):
+                inv["ParameterizedObject"] += specials(d)
+                for c in inner(d):
+                    if c.get("kind") == "CXXRecordDecl" and c.get("name") == "Param" and not c.get("isImplicit"):
+                        inv["ParameterizedObject"] += specials(c, "Param::")
+        inv["FlatMap"] += ns_level(docs_nc, "containers", ("rkcommon/containers/FlatMap.h",))
+        inv["ParameterizedObject"] += ns_level(docs_nu, "utility", ("rkcommon/utility/ParameterizedObject.h", "rkcommon/utility/ParameterizedObject.cpp"))
+    except Exception as ex:
+        notes.append("inventory: %r" % (repr(ex)[:300],))
+        inv["FlatMap"].append("?inventory failed")
     text = coq_text(fm, ff, po, pf, decl_fm, decl_po)
     if a.out:
         write_if_changed(a.out, text)
@@ -855,7 +942,7 @@ def main(argv):
         sys.stdout.write(text)
     if a.json:
         json.dump({"flatmap": fm, "flatmap_members": ff, "po": po, "po_members": pf, "notes": notes,
-                   "declared": {"FlatMap": decl_fm, "ParameterizedObject": decl_po}}, open(a.json, "w"), indent=1)
+                   "declared": {"FlatMap": decl_fm, "ParameterizedObject": decl_po}, "inventory": inv}, open(a.json, "w"), indent=1)
     return 0
 
 
